@@ -924,6 +924,13 @@ def r5_dirs(ctx, rep):
 
 def obj_value(py, cls: str) -> Optional[str]:
     """the `obj` string of instances of cls (class attr, explicit assignment, or derived from name)."""
+    memo = py.__dict__.setdefault("_obj_value_memo", {})
+    if cls not in memo:
+        memo[cls] = _obj_value(py, cls)
+    return memo[cls]
+
+
+def _obj_value(py, cls: str) -> Optional[str]:
     for c in py.mro(cls):
         ci = py.classes.get(c)
         if not ci:
